@@ -419,6 +419,9 @@ def _odometer_site(s, args):
     why = "odometer group: index over 0..sets.len() / positional element into equal-length vectors with pos[i] <= final_pos[i] = len_i - 1 (C17.R3 re-checked below)"
     if kind == "index" and len(args) >= 2 and (is_loop_var(args[1]) or is_elem(args[1])):
         return why
+    # the prefix pos[..=idx] of a vector with one entry per position
+    if kind == "index" and len(args) >= 2 and args[1][0] == "agg" and args[1][1].endswith("RangeToInclusive") and is_loop_var(dict(args[1][3]).get("end", ("none",))):
+        return why
     if kind == "assert" and t.get("msg") == "BoundsCheck" and len(args) >= 1 and any(is_loop_var(a) or is_elem(a) for a in args[:1]):
         return why
     if kind == "assert" and t.get("msg") == "Overflow" and t.get("op") == "Sub" and len(args) == 2 and args[1] == ("const", "usize", 1) and args[0][0] == "call" and args[0][1].endswith("::len") and innermost_loop(s["b"], s["bb"]) is not None:
